@@ -23,14 +23,18 @@ import (
 // The rule takes the place where X is done (the target call — in the anchor function or in a
 // function of the module it calls: the branches of the anchor on the way to that call and those
 // of the helper on the way to the target both count; when one call serves both cases and an
-// operand decides which, the places where the operand takes the deciding value) and classifies
+// operand decides which, the places where the operand takes the deciding value — in the function
+// that makes the call, or at the exits of the function of the module whose result the operand
+// is) and classifies
 // every branch that decides whether the target is reached:
 //
 //   - a confirmed exemption (tables, one reason each: predicates, texts, kinds of definition). A
 //     test on the kind of definition is resolved to the kinds it exempts — the side of the branch
 //     that misses the target, the universe of the constants of the type, the content of a table
 //     of kinds — and each exempted kind has to be a confirmed one. An entry may demand a call
-//     on the exempted side (the comparison that stands in for the one skipped);
+//     on the exempted side (the comparison that stands in for the one skipped) — made there, or
+//     by a function of the module that makes it on every path and whose error the exempted side
+//     returns;
 //   - a structural test: presence of an entry of a map (comma-ok, or the nil-ness of what was
 //     looked up), the test of a counting loop, the same field or predicate on both sides. A
 //     comparison with nil is judged by what is nil: an entry looked up, the error of a call (the
@@ -57,7 +61,7 @@ type decideSpec struct {
 	strs    map[string]string                      // accepted string constants a value may be compared with → reason
 	kinds   map[string]string                      // kinds of definition (values of a typed constant) that may be exempted → reason
 	fields  map[string]string                      // a field compared with the same field of another value → reason
-	passes  map[string]string                      // key of an exemption above → a call (suffix) that every path of the exempted side makes before the next item
+	passes  map[string]string                      // key of an exemption above → a call (suffix) that every path of the exempted side makes before the next item (itself or through a function of the module, see makesCall)
 	lenOf   func(t types.Type) bool
 	what    string // "whether the two declarations of a shared type are compared"
 	effect  string // consequence of a new condition
@@ -96,43 +100,97 @@ func ruleDeciding(spec decideSpec) ruleFn {
 	}
 }
 
-// targetPoints: where in its function the target call ci counts as reached. Without a choice
-// operand: the call's block. With one (`iMap.Set(i, n, key)`: the key makes the call the
-// de-duplicating one): the places where that operand takes a value that is not plain — the
-// call's block for a direct value, the incoming edge for an alternative of a phi (an edge out
-// of a two-way branch is represented by that branch).
-func (d *decider) targetPoints(ci ssa.CallInstruction) (blocks []*ssa.BasicBlock, ifs []*ssa.If) {
+// choicePoints: the places of one function where the choice operand of a target call takes a
+// value that makes the call the thing decided.
+type choicePoints struct {
+	blocks []*ssa.BasicBlock
+	ifs    []*ssa.If
+}
+
+// targetPoints: where the target call ci counts as reached. Without a choice operand: the
+// call's block. With one (`iMap.Set(i, n, key)`: the key makes the call the de-duplicating
+// one): the places where that operand takes a value that is not plain — the call's block for a
+// direct value, the incoming edge for an alternative of a phi (an edge out of a two-way branch
+// is represented by that branch). An operand that is the result of a function of the module
+// (`iMap.Set(i, n, requestDedupKey(i, req, vars))`) takes its value where that function
+// returns: the places are those of the function's exits (and of the alternatives of what it
+// returns) that are not plain, in that function — its branches then decide — and the place
+// where the caller takes the result.
+func (d *decider) targetPoints(ci ssa.CallInstruction) map[*ssa.Function]*choicePoints {
 	if !d.spec.target(d.r, ci) {
-		return nil, nil
+		return nil
+	}
+	out := map[*ssa.Function]*choicePoints{}
+	at := func(b *ssa.BasicBlock) *choicePoints {
+		if out[b.Parent()] == nil {
+			out[b.Parent()] = &choicePoints{}
+		}
+		return out[b.Parent()]
 	}
 	if d.spec.choice == nil {
-		return []*ssa.BasicBlock{ci.Block()}, nil
+		at(ci.Block()).blocks = []*ssa.BasicBlock{ci.Block()}
+		return out
 	}
 	seen := map[ssa.Value]bool{}
-	var expand func(v ssa.Value, at *ssa.BasicBlock, to *ssa.BasicBlock)
-	expand = func(v ssa.Value, at *ssa.BasicBlock, to *ssa.BasicBlock) {
+	var expand func(v ssa.Value, at *ssa.BasicBlock, to *ssa.BasicBlock, depth int) bool
+	expand = func(v ssa.Value, from *ssa.BasicBlock, to *ssa.BasicBlock, depth int) bool {
 		if phi, ok := v.(*ssa.Phi); ok {
 			if seen[v] {
-				return
+				return false
 			}
 			seen[v] = true
+			any := false
 			for i, e := range phi.Edges {
-				expand(e, phi.Block().Preds[i], phi.Block())
+				if expand(e, phi.Block().Preds[i], phi.Block(), depth) {
+					any = true
+				}
 			}
-			return
+			return any
 		}
 		if d.spec.plain != nil && d.spec.plain(v) {
-			return
+			return false
 		}
-		blocks = append(blocks, at)
-		if to != nil && len(at.Succs) == 2 {
-			if iff, ok := at.Instrs[len(at.Instrs)-1].(*ssa.If); ok {
-				ifs = append(ifs, iff)
+		// the result of a function of the module: the value is chosen at its exits
+		var call *ssa.Call
+		idx := 0
+		switch x := v.(type) {
+		case *ssa.Call:
+			call = x
+		case *ssa.Extract:
+			call, _ = x.Tuple.(*ssa.Call)
+			idx = x.Index
+		}
+		if call != nil && depth < 2 {
+			if g := call.Call.StaticCallee(); g != nil && inModule(g) && g.Blocks != nil && !seen[call] {
+				seen[call] = true
+				inner, resolved := false, true
+				for _, ret := range returnsOf(g) {
+					rv := retVals(ret)
+					if idx >= len(rv) {
+						resolved = false
+						continue
+					}
+					if expand(rv[idx], ret.Block(), nil, depth+1) {
+						inner = true
+					}
+				}
+				if resolved && !inner {
+					return false // every exit hands back a plain value
+				}
+				// otherwise the caller takes a deciding value here, like a value made on the spot
 			}
 		}
+		p := at(from)
+		p.blocks = append(p.blocks, from)
+		if to != nil && len(from.Succs) == 2 {
+			if iff, ok := from.Instrs[len(from.Instrs)-1].(*ssa.If); ok {
+				p.ifs = append(p.ifs, iff)
+			}
+		}
+		return true
 	}
-	expand(d.spec.choice(ci), ci.Block(), nil)
-	return
+	expand(d.spec.choice(ci), ci.Block(), nil, 0)
+	return out
 }
 
 // holdsTarget: fn makes the target call itself or through functions of the module it calls.
@@ -153,7 +211,7 @@ func (d *decider) holdsTarget(fn *ssa.Function, depth int) bool {
 		if !ok {
 			continue
 		}
-		if b, _ := d.targetPoints(ci); len(b) > 0 {
+		if len(d.targetPoints(ci)) > 0 {
 			res = true
 			break
 		}
@@ -174,23 +232,46 @@ func (d *decider) holdsTarget(fn *ssa.Function, depth int) bool {
 // the way to the target call (or to the call of a helper that makes it), and, in such a helper,
 // those on the way from its entry to the target.
 func (d *decider) decideIn(fn *ssa.Function, depth int) {
+	d.decideFrom(fn, depth, nil)
+}
+
+// decideFrom: decideIn with places of fn that count as reached targets from the start (the
+// exits of a helper that returns the choice operand of a target call of its caller).
+func (d *decider) decideFrom(fn *ssa.Function, depth int, given *choicePoints) {
 	if d.visited[fn] {
 		return
 	}
 	d.visited[fn] = true
 	targets := map[*ssa.BasicBlock]bool{}
 	var extra []*ssa.If
+	if given != nil {
+		for _, b := range given.blocks {
+			targets[b] = true
+		}
+		extra = append(extra, given.ifs...)
+	}
 	for _, ins := range allInstrs(fn) {
 		ci, ok := ins.(ssa.CallInstruction)
 		if !ok {
 			continue
 		}
 		if d.spec.target(d.r, ci) {
-			bs, ifs := d.targetPoints(ci)
-			for _, b := range bs {
-				targets[b] = true
+			pts := d.targetPoints(ci)
+			var others []*ssa.Function
+			for f, p := range pts {
+				if f != fn {
+					others = append(others, f)
+					continue
+				}
+				for _, b := range p.blocks {
+					targets[b] = true
+				}
+				extra = append(extra, p.ifs...)
 			}
-			extra = append(extra, ifs...)
+			sort.Slice(others, func(i, j int) bool { return fnName(others[i]) < fnName(others[j]) })
+			for _, f := range others {
+				d.decideFrom(f, depth+1, pts[f])
+			}
 			continue
 		}
 		if sc := ci.Common().StaticCallee(); sc != nil && inModule(sc) && d.holdsTarget(sc, depth+1) {
@@ -445,7 +526,7 @@ func (d *decider) exemption(in *ssa.Function, key, what string, pos token.Pos, r
 	if d.cur != nil && d.exempt >= 0 && d.cur.Parent() == in {
 		ok, _ = mustPass(d.cur.Block().Succs[d.exempt], 0, func(ins ssa.Instruction) bool {
 			ci, isCall := ins.(ssa.CallInstruction)
-			return isCall && strings.HasSuffix(shortCallee(ci.Common()), need)
+			return isCall && makesCall(ci, need, 0)
 		})
 	}
 	if ok {
@@ -453,7 +534,88 @@ func (d *decider) exemption(in *ssa.Function, key, what string, pos token.Pos, r
 		return
 	}
 	d.n++
-	d.r.Bad(d.spec.rule, fnName(in), "condition "+what, d.r.P.pos(pos), d.spec.what+" is decided by "+what+", an exemption that is confirmed only where every path of the exempted side calls "+need+" before the next item (the comparison that stands in for the one skipped); here a path does not: "+d.spec.effect)
+	d.r.Bad(d.spec.rule, fnName(in), "condition "+what, d.r.P.pos(pos), d.spec.what+" is decided by "+what+", an exemption that is confirmed only where every path of the exempted side calls "+need+" before the next item (the comparison that stands in for the one skipped) — itself, or through a function of the module that calls it on every path and whose error is returned; here a path does not: "+d.spec.effect)
+}
+
+// makesCall: the call ci is a call of need (suffix of the callee's short name), or of a function
+// of the module that itself makes such a call on every path from its entry and whose verdict the caller
+// acts on: the function answers with an error as its last result, and where that error is not nil
+// every path of the caller returns an error (a comparison whose outcome is dropped at the call
+// does not stand in for anything).
+func makesCall(ci ssa.CallInstruction, need string, depth int) bool {
+	if strings.HasSuffix(shortCallee(ci.Common()), need) {
+		return true
+	}
+	// one level: the function called from the exempted side makes the call itself (R13o judges
+	// the member comparisons of mergeTypes and of the functions it calls, not those further down)
+	sc := ci.Common().StaticCallee()
+	if sc == nil || !inModule(sc) || sc.Blocks == nil || depth > 0 {
+		return false
+	}
+	if _, isGo := ci.(*ssa.Go); isGo {
+		return false
+	}
+	if _, isDefer := ci.(*ssa.Defer); isDefer {
+		return false
+	}
+	if through, _ := mustPass(sc.Blocks[0], 0, func(ins ssa.Instruction) bool {
+		c2, isCall := ins.(ssa.CallInstruction)
+		return isCall && makesCall(c2, need, depth+1)
+	}); !through {
+		return false
+	}
+	return errorRefused(ci)
+}
+
+// errorRefused: the function called at ci answers with an error as its last result, the caller
+// tests that error against nil, and on the side where it is not nil every path of the caller
+// returns an error that is not nil.
+func errorRefused(ci ssa.CallInstruction) bool {
+	call, ok := ci.(*ssa.Call)
+	if !ok {
+		return false
+	}
+	res := call.Call.Signature().Results()
+	if res.Len() == 0 || !isErrorish(res.At(res.Len()-1).Type()) {
+		return false
+	}
+	var errv ssa.Value = call
+	if res.Len() > 1 {
+		errv = nil
+		for _, ref := range *call.Referrers() {
+			if ex, ok := ref.(*ssa.Extract); ok && ex.Index == res.Len()-1 {
+				errv = ex
+			}
+		}
+	}
+	if errv == nil || errv.Referrers() == nil {
+		return false
+	}
+	for _, ref := range *errv.Referrers() {
+		bo, ok := ref.(*ssa.BinOp)
+		if !ok || (bo.Op != token.NEQ && bo.Op != token.EQL) || !(isNilConst(bo.X) || isNilConst(bo.Y)) || bo.Referrers() == nil {
+			continue
+		}
+		for _, r2 := range *bo.Referrers() {
+			iff, ok := r2.(*ssa.If)
+			if !ok {
+				continue
+			}
+			side := iff.Block().Succs[0]
+			if bo.Op == token.EQL {
+				side = iff.Block().Succs[1]
+			}
+			// the test comes right after the call: nothing between the two can leave the pair
+			// accepted before the error is looked at
+			if iff.Block() != call.Block() || len(side.Preds) != 1 {
+				continue
+			}
+			if refuses(side, nil) {
+				return true
+			}
+		}
+	}
+	return false
 }
 
 // kindUniverse: the values of the constants of the named type t that its package declares.
